@@ -6,6 +6,7 @@ package flamego
 
 import (
 	"errors"
+	"io"
 	"net/http"
 
 	"github.com/flamego/flamego/internal/vx"
@@ -67,6 +68,42 @@ func (s *vSpy) Write(b []byte) (int, error) {
 	return n, nil
 }
 
+// ReadFrom makes the spy an io.ReaderFrom, as net/http's own response writer is
+// (the sendfile path of io.Copy): whatever arrives this way is body all the same.
+func (s *vSpy) ReadFrom(r io.Reader) (int64, error) {
+	var total int64
+	buf := make([]byte, 4)
+	for {
+		n, err := r.Read(buf)
+		if n > 0 {
+			m, werr := s.Write(buf[:n])
+			total += int64(m)
+			if werr != nil {
+				return total, werr
+			}
+		}
+		if err != nil {
+			return total, nil
+		}
+	}
+}
+
+// vPlainReader is a reader that is nothing but a reader (no WriteTo), so that
+// io.Copy has to choose between the destination's ReadFrom and plain Write.
+type vPlainReader struct {
+	data []byte
+	pos  int
+}
+
+func (r *vPlainReader) Read(p []byte) (int, error) {
+	if r.pos >= len(r.data) {
+		return 0, io.EOF
+	}
+	n := copy(p, r.data[r.pos:])
+	r.pos += n
+	return n, nil
+}
+
 func (s *vSpy) Flush() {
 	if s.headers == 0 {
 		s.bodyBeforeHd = true
@@ -95,7 +132,20 @@ func VH_C13_kstep() {
 	nextHook := 0
 
 	for step := 0; step < k; step++ {
-		switch vx.Choice(4) {
+		switch vx.Choice(5) {
+		case 4:
+			// a body sent with io.Copy from a plain reader (the route an io.ReaderFrom fast path would take)
+			n := vx.Int(0, 2)
+			before := spy.bytes
+			_, _ = io.Copy(w, &vPlainReader{data: make([]byte, n)})
+			if n > 0 && ref.status == 0 {
+				ref.status = 200
+			}
+			fwd := spy.bytes - before
+			ref.size += fwd
+			if method == "HEAD" {
+				vx.Assert(fwd == 0, "HEAD forwards no body bytes")
+			}
 		case 0:
 			code := vx.Int(100, 999)
 			w.WriteHeader(code)
